@@ -19,8 +19,16 @@
    sort_unstable_by_key), RecipientCustomTlvs::new, and the reader's known types / custom closure / kind decision are
    extracted from msgs.rs on every run (Generated/OnionPayloads.lean); theorems: strictly increasing types for every
    payload kind and custom TLV set, decode(write) = what was asked, kind recognised.
-   Not covered here: ECDH / ephemeral-key blinding (shared secrets are inputs), payload contents
-   (opaque, length-framed), the fulfil direction of attribution data (executable model, correspondence only). -/
+   Fulfil direction of attribution data (section "fulfil attribution data"): process_fulfill_attribution_data /
+   decode_fulfill_attribution_data translated; hold times of every path length, cut at the first affected hop.
+   The index arithmetic of ALL AttributionData helpers is translated (Generated/AttrIdx.lean) and proved to be what the
+   mirrors compute (`attribution_helpers_use_translated_indices`).
+   Hop payloads as VALUES and BYTES (section "hop payloads as VALUES and BYTES"): generated value encodings,
+   decode(encode i) = i for every instruction kind, end to end through build / peel (`hops_read_their_instructions`).
+   Blinded-path failures (section "failures in and around blinded payment paths"): get_htlc_forward_failure and the
+   blinded branches of the sender's loop translated; never attributed inside / after the blinded section.
+   Not covered here: ECDH / ephemeral-key blinding and blinding-point derivation (shared secrets are inputs; what a
+   blinded hop's encrypted_tlvs decrypt to is a parameter), trampoline onions. -/
 import LdkModel.Proofs.Onion
 import LdkModel.Proofs.OnionAttr
 import LdkModel.Proofs.OnionFulfil
